@@ -225,3 +225,31 @@ class Ctx:
         if self.errors:
             return 2
         return 0
+
+
+class Proxy:
+    """run rules written for another property under rule ids of this one: `mapping` {their rule id: our rule id};
+    obligations of unmapped rules are dropped"""
+
+    def __init__(self, ctx, mapping):
+        self._ctx = ctx
+        self._mapping = mapping
+
+    def __getattr__(self, k):
+        return getattr(self._ctx, k)
+
+    def ok(self, rule, *a, **kw):
+        if rule in self._mapping:
+            return self._ctx.ok(self._mapping[rule], *a, **kw)
+
+    def violation(self, rule, *a, **kw):
+        if rule in self._mapping:
+            return self._ctx.violation(self._mapping[rule], *a, **kw)
+
+    def check(self, cond, rule, func, desc, witness=None, node=None, key=None):
+        if rule in self._mapping:
+            return self._ctx.check(cond, self._mapping[rule], func, desc, witness=witness, node=node, key=key)
+
+    def recognise(self, cond, rule, func, desc, node=None, witness=None, key=None):
+        if rule in self._mapping:
+            return self._ctx.recognise(cond, self._mapping[rule], func, desc, node=node, witness=witness, key=key)
